@@ -28,13 +28,13 @@ type unifier struct {
 }
 
 var (
-	posType     = reflect.TypeOf(token.NoPos)
-	cgType      = reflect.TypeOf((*ast.CommentGroup)(nil))
-	objType     = reflect.TypeOf((*ast.Object)(nil))
-	scopeType   = reflect.TypeOf((*ast.Scope)(nil))
-	identType   = reflect.TypeOf((*ast.Ident)(nil))
-	litType     = reflect.TypeOf((*ast.BasicLit)(nil))
-	nodeIface   = reflect.TypeOf((*ast.Node)(nil)).Elem()
+	posType   = reflect.TypeOf(token.NoPos)
+	cgType    = reflect.TypeOf((*ast.CommentGroup)(nil))
+	objType   = reflect.TypeOf((*ast.Object)(nil))
+	scopeType = reflect.TypeOf((*ast.Scope)(nil))
+	identType = reflect.TypeOf((*ast.Ident)(nil))
+	litType   = reflect.TypeOf((*ast.BasicLit)(nil))
+	nodeIface = reflect.TypeOf((*ast.Node)(nil)).Elem()
 )
 
 func (u *unifier) fail(format string, a ...any) bool {
